@@ -171,7 +171,7 @@ func TestVerifTimeoutRecover(t *testing.T) {
 	logx.Disable()
 	bound := 2
 	if vrt.Thorough() {
-		bound = 3
+		bound = 4
 	}
 	type sc struct {
 		b      behaviour
@@ -283,7 +283,7 @@ func TestVerifMaxConns(t *testing.T) {
 	logx.Disable()
 	bound := 2
 	if vrt.Thorough() {
-		bound = 3
+		bound = 4
 	}
 	idx := 100
 	for _, n := range []int{1, 2} {
